@@ -47,6 +47,9 @@ REQUIRED_THEOREMS = [
     "C19.reduce_transposed_counterexample",
     "C19.total_buffer_len_covers_partial",
     "C19.total_buffer_len_floor_counterexample",
+    "C19.repaired_strided_faithful",
+    "C19.repaired_contiguous_faithful",
+    "C19.repaired_buffer_is_the_extent",
 ]
 TRUSTED_EXTRA = [
     "runs under python3-vt (CPython 3.11.7, numpy 2.4.6), not the repo's pinned 3.12.1 (which has no numpy)",
@@ -146,6 +149,11 @@ def _explore(ctx, parts):
 def _parts():
     return ([f"dump{i}of{N_DUMP_SHARDS}" for i in range(N_DUMP_SHARDS)] + ["views"]
             + [f"parallel{i}of{N_PAR_SHARDS}" for i in range(N_PAR_SHARDS)])
+
+
+def prepare(ctx):
+    """Called by core.run_check before the proof audit (regenerated constants: alignment, buffer size)."""
+    gen_tables.regenerate()
 
 
 def run(ctx):
